@@ -225,11 +225,13 @@ class _CFIProcedureTracker:
                         directive == ".cfi_endproc"
                         and procedure_start is not None
                     ):
-                        procedure_end = (idx, offset)
-                        # A procedure can be empty, e.g. after all of its
-                        # code was deleted.
-                        if procedure_start != procedure_end:
-                            self._tree.addi(procedure_start, procedure_end)
+                        # Code inserted at the location of the .cfi_endproc
+                        # is placed in front of it and is still part of the
+                        # procedure, so the end is inclusive. (This also
+                        # avoids empty intervals for procedures that have
+                        # lost all of their code.)
+                        procedure_end = (idx, offset + 1)
+                        self._tree.addi(procedure_start, procedure_end)
 
     def in_procedure(self, block_idx: int, offset: int) -> bool:
         return bool(self._tree.at((block_idx, offset)))
